@@ -41,6 +41,7 @@ class Item:
         self.cls = None             # refusal / gray class
         self.notes = []
         self.method = self.target = self.version = None
+        self.lex_method = None   # first token of the start line even when the line is not judged: only used to frame the *response* (HEAD)
         self.fields = []            # [(name bytes, value bytes)] arrival order, obs-fold unfolded
         self.framing = "none"       # none | cl | chunked
         self.body = b""
@@ -263,6 +264,7 @@ def _start_line(it, sl):
             and not any(c in b"\r\n\t\x0b\x0c" for c in sl):
         m, t, v = parts[0], parts[1], parts[2][5:]
         it.method, it.target, it.version = m, t, v
+        it.lex_method = m
         if m != m.upper():
             it.gray("method-lowercase")
         if not all(0x21 <= c <= 0x7E for c in t):
@@ -289,6 +291,7 @@ def _start_line(it, sl):
     it.start_line_gray = True
     it.method = it.target = None
     st = sl.strip()
+    it.lex_method = st.split(b" ")[0].split(b"\t")[0] if st else None
     it.version = st[-3:] if st[-8:-3] == b"HTTP/" else b""
 
 
